@@ -549,6 +549,81 @@ def cold_custom(ctx, seed, tier, shard, nshards, n):
 # ------------------------------------------------------------------------------------------------
 # clause 6 (thorough only): free-running threads; can only add violations
 # ------------------------------------------------------------------------------------------------
+# ------------------------------------------------------------------------------------------------
+# clause 7: a long-running service (one process, one model, thousands of calls, recurring line-ups)
+# ------------------------------------------------------------------------------------------------
+SERVICE_CHECKPOINTS = [150, 1100, 4200, 8500, 17000, 33500, 66500]  # just past 128, 1024, 4096, 8192, ... : the capacities bounded tables have
+
+
+def run_service(spec, tag):
+    here = os.path.dirname(os.path.dirname(os.path.dirname(os.path.abspath(__file__))))
+    work = os.path.join(here, ".work", f"c14-service-{os.getpid()}-{tag}")
+    os.makedirs(work, exist_ok=True)
+    path = os.path.join(work, "spec.json")
+    with open(path, "w") as f:
+        json.dump(spec, f)
+    try:
+        p = subprocess.run([sys.executable, "-B", "-m", "vf.servicechild", path], capture_output=True, text=True, timeout=3000)
+    finally:
+        try:
+            os.remove(path)
+            os.rmdir(work)
+        except OSError:
+            pass
+    if p.returncode != 0:
+        raise HarnessError(f"service child failed: {p.stderr[-2000:]}")
+    out = json.loads(p.stdout)
+    if out["mismatches"]:
+        m = out["mismatches"][0]
+        job = spec["recurring"][m["index"]]
+        raise Violation(f"service:recurring-call-changed:{job['op']}",
+                        f"{spec['cfg']['kind']}: {job['op']}({job.get('call', {})}) on {job['teams']} returned {m['first']!r} as one of the first calls of the process and "
+                        f"{m['now']!r} after {m['after']} other calls ({m['model']} model)"[:1200])
+    return out
+
+
+def check_service(spec, ctx):
+    out = run_service(spec, "replay")
+    ctx.called(out["fillers"])
+    ctx.nontrivial_if(out["fillers"] >= 4200)
+
+
+def service_custom(ctx, seed, tier, shard, nshards, n):
+    from hypothesis import HealthCheck, given, settings
+    from hypothesis import seed as hseed
+
+    specs = []
+    K = 9000 if tier == "quick" else 70000
+
+    @hseed(seed)
+    @settings(max_examples=n + 1, database=None, deadline=None, suppress_health_check=list(HealthCheck))
+    @given(st.data())
+    def collect(data):
+        cfg = data.draw(gen.configs())
+        rec = [data.draw(jobs_for(cfg, max_teams=4, max_size=3)) for _ in range(data.draw(st.integers(4, 10)))]
+        # the line-ups every service sees again and again: newcomers on default ratings, 1 v 1 and 2 v 2, win and draw
+        d = [cfg["mu"], cfg["sigma"]]
+        rec.insert(0, {"op": "rate", "teams": [[list(d)], [list(d)]], "call": {"ranks": [0, 0]}})
+        rec.append({"op": "rate", "teams": [[list(d), list(d)], [list(d), list(d)]], "call": {"scores": [83.0, 71.0]}})
+        rec.append({"op": data.draw(st.sampled_from(["predict_win", "predict_draw", "predict_rank"])), "teams": [[list(d)], [list(d)], [list(d)]]})
+        specs.append({"cfg": cfg, "recurring": rec, "prng": data.draw(st.integers(0, 2 ** 32 - 1)), "K": K, "checkpoints": [c for c in SERVICE_CHECKPOINTS if c <= K]})
+
+    collect()
+    # Hypothesis starts every run with its simplest example: the same one in every shard.  Shard 0 keeps it, the others drop it.
+    specs = specs[:n] if shard == 0 else specs[1:n + 1]
+    for k, spec in enumerate(specs):
+        ctx.begin(spec)
+        try:
+            out = run_service(spec, f"{shard}-{k}")
+        except Violation as v:
+            v.case = spec
+            raise
+        ctx.called(out["fillers"] + len(spec["recurring"]) * len(spec["checkpoints"]))
+        ctx.label("kind:" + spec["cfg"]["kind"], f"fillers:{out['fillers']}", "fillers-that-raised:" + ("0" if not out["raised"] else ">0"))
+        ctx.nontrivial_if(out["fillers"] >= 4200)
+        ctx.end()
+
+
 def stress_custom(ctx, seed, tier, shard, nshards, n):
     from hypothesis import HealthCheck, given, settings
     from hypothesis import seed as hseed
@@ -627,6 +702,12 @@ PROPERTY = Property(
                rule="the same generated job sets and schedules, each executed in a FRESH child interpreter in which nothing has been called before "
                     "(lazily filled module- or class-level tables, first-use initialisation): results compared with the sequential ones; non-trivial = a "
                     "real preemption took place"),
+        Clause(name="long-running-service", kind="custom", custom=service_custom, check=check_service, quick=32, thorough=128, shards_quick=16, shards_thorough=16,
+               rule="ONE fresh child interpreter and ONE long-lived model per case: 7-13 recurring calls (generated ones + newcomers on default ratings) "
+                    "are the first calls of the process; then 9 000 (quick) / 70 000 (thorough) filler calls with ever new line-ups, scorelines and options "
+                    "expanded from a Hypothesis-drawn PRNG seed; at the checkpoints 150, 1 100, 4 200, 8 500, 17 000, 33 500, 66 500 (just past the "
+                    "capacities bounded tables have) the recurring calls are repeated on the same model and must return exactly what they returned at "
+                    "the start, and finally on a new model instance in the same process; non-trivial = at least 4 200 fillers ran"),
         Clause(name="free-running-threads", kind="custom", custom=stress_custom, quick=0, thorough=400, shards_thorough=4,
                rule="sampled (OS-scheduled) stress: 2k threads x 5 repetitions on one model with switch interval 1e-6; can only add violations"),
     ],
